@@ -81,13 +81,62 @@ def to_events(sc, result):
     return per, None
 
 
+def seq_groups(res):
+    """sequential histories on few keys with values sized so that a fragment spans many tables: overwrite / delete /
+    conditional puts across table boundaries through every entry path"""
+    cfgs = [{"members": 1, "replicas": 1, "partitions": 1, "table": 256, "evict_workers": 1},
+            {"members": 3, "replicas": 2, "partitions": 3, "table": 300, "evict_workers": 1}]
+    groups = []
+    sid = 9000
+    n = 8 if res.tier == "quick" else 80
+    for ci, cfg in enumerate(cfgs):
+        scs = []
+        for i in range(n):
+            rng = vlib.rng_for(res.seed, PID, "seq", ci, i)
+            d = "c01s%d" % sid
+            keys = [dmaplib.hx("%s-k%d" % (d, j)) for j in range(rng.choice([3, 5, 8]))]
+            ops = []
+            v = 0
+            for _ in range(rng.randrange(40, 120)):
+                k = rng.choice(keys)
+                c = rng.choice(dmaplib.ALLPATHS)
+                w = rng.random()
+                if w < 0.5:
+                    v += 1
+                    op = {"op": "put", "c": c, "d": d, "k": k, "v": dmaplib.hx(str(v) + "p" * rng.choice([30, 70, 110]))}
+                    x = rng.random()
+                    if x < 0.12:
+                        op["nx"] = True
+                    elif x < 0.24:
+                        op["xx"] = True
+                    ops.append(op)
+                elif w < 0.8:
+                    ops.append({"op": "get", "c": c, "d": d, "k": k})
+                else:
+                    ops.append({"op": "del", "c": c, "d": d, "k": k})
+            for k in keys:
+                ops.append({"op": "get", "c": "emb@owner", "d": d, "k": k})
+                ops.append({"op": "dump", "d": d, "k": k})
+            scs.append({"id": sid, "ops": ops})
+            sid += 1
+        groups.append((cfg, scs))
+    return groups
+
+
 def run(res):
-    proofs_ok = vlib.common_obligations(res, PID)
+    import dmapcheck
+    dmapcheck.run_dmap_check(
+        res, PID, seq_groups, dmaplib.judge_seq, shard=2,
+        rule="(a) sequential histories of 40-120 operations {Put, Put NX, Put XX, Get, Delete} on 3-8 keys with 30-110 byte values at table sizes 256/300 "
+             "(fragments span many tables) through 7 entry paths, judged by the reference semantics + mirror and compared with Model/DMap.v; "
+             "(b) 2-5 concurrent clients (embedded on owner / non-owner / backup owner, cluster client, raw RESP) issue 3-5 operations each on 1-2 keys with "
+             "distinct values, on clusters (N,R) in {(3,2),(3,3),(2,1),(1,1)}, with or without background eviction passes, plus writers racing back-to-back "
+             "janitor passes; every per-key history (monotonic invocation/response instants) is judged by the linearizability checker of Model/Lin.v "
+             "evaluated inside Coq; non-trivial = the history contains operations that overlap in time")
     if getattr(res, "harness_error", None):
-        res.violation({"kind": "harness-build", "failed": "correspondence: the harness no longer compiles against /repo",
-                       "detail": res.harness_error[-3000:]}, no_input=True)
-        res.coverage.update({"evaluations": 0, "distinct_nontrivial": 0})
         return
+    seqcov = dict(res.coverage)
+    proofs_ok = all(o["ok"] for o in res.obligations)
     rounds = 40 if res.tier == "quick" else 400
     cfgs = [{"members": 3, "replicas": 2, "partitions": 7, "table": 256, "evict_workers": 1},
             {"members": 3, "replicas": 3, "partitions": 13, "table": 512, "evict_workers": 1},
@@ -158,16 +207,9 @@ def run(res):
                        "predicate": {"name": "lin_register (Model/Lin.v, sound by LinProofs.search_sound; exhaustive search below its fuel)",
                                      "verdict": "the recorded history of key %s has no linearization w.r.t. the register specification" % hid[1]},
                        "seed": res.seed})
-    if not proofs_ok and not res.violations:
-        broken = [o for o in res.obligations if not o["ok"]]
-        res.violation({"kind": "obligation-broken", "failed": [o["theorem"] for o in broken],
-                       "detail": [o.get("detail", o.get("axioms")) for o in broken]}, no_input=True)
+    res.coverage = seqcov
     res.coverage.update({
-        "evaluations": len(hists), "distinct_nontrivial": overlap,
-        "rule": "2-5 concurrent clients (embedded on owner / non-owner / backup owner, cluster client, raw RESP) issue 3-5 operations each from {Put, Put NX, Put XX, Get, "
-                "Delete} on 1-2 keys with distinct values sized so that fragments span several tables, on clusters (N,R) in {(3,2),(3,3),(2,1),(1,1)}, with or without "
-                "background eviction passes; every per-key history (monotonic invocation/response instants) is judged by the linearizability checker of Model/Lin.v "
-                "evaluated inside Coq; non-trivial = the history contains operations that overlap in time",
+        "evaluations": seqcov.get("evaluations", 0) + len(hists), "distinct_nontrivial": seqcov.get("distinct_nontrivial", 0) + overlap,
         "histories": len(hists), "nonlinearizable": len(nonlin), "inconclusive": len(inconclusive), "unexpected_results": len(unexpected),
         "coq_eval_seconds": round(secs, 1), "traces_validated_against_impl": len(hists),
         "samples": [{"key": hists[0][0][1], "history": hists[0][2][:8]}] if hists else [],
